@@ -217,6 +217,52 @@ theorem window_update_only_buffered (buffers : List Nat) (sid : Option Nat) (j :
 open HC.Proto.H2Window in
 example : unblocked [1, 3, 5] (some 0) = [1, 3, 5] ∧ unblocked [1, 3, 5] (some 3) = [3] ∧ unblocked [1, 3, 5] (some 7) = [] := by decide
 
+/-! ### HTTP/2 trailers: kept until the body has gone out, then sent as the one frame that ends the stream -/
+open HC.Proto.H2Window in
+/-- `stream_send(Trailers)` sends nothing by itself: it appends the fields to the stream buffer's `trailers`
+    (h2 accepts trailers only as the frame that ends the stream) -/
+theorem trailers_deferred :
+    ReqGlue.trailersBranchCalls = ["self.stream_buffers[event.stream_id].trailers.extend(event.headers)"] := by decide
+
+open HC.Proto.H2Window in
+/-- **end-of-response exactly once, with or without trailers**: `_end_stream` makes exactly one h2 call and that call
+    ends the stream — the HEADERS frame with the pending trailers and END_STREAM when there are any, the empty DATA
+    frame with END_STREAM otherwise -/
+theorem one_end_of_stream (n : Nat) :
+    (endCalls n).length = 1 ∧
+    (0 < n → endCalls n = ["send_headers(stream_id, trailers, end_stream=True)"]) ∧
+    (n = 0 → endCalls n = ["end_stream(stream_id)"]) := by
+  by_cases h : 0 < n
+  · simp [endCalls, ReqGlue.endStreamTest, ReqGlue.endWithTrailers, h]; omega
+  · have h0 : n = 0 := by omega
+    subst h0
+    simp [endCalls, ReqGlue.endStreamTest, ReqGlue.endWithoutTrailers]
+
+/-- the trailer fields the protocol has been handed for a stream, in order (several `http.response.trailers`
+    messages form the one trailing block HTTP/2 allows) -/
+def pendingTrailers (evs : List Ev) : Headers :=
+  (evs.filterMap (fun e => match e with | .trailers h => some h | _ => none)).flatten
+
+/-- **trailers are emitted to an HTTP/2 client that sent `te: trailers`** (the converse of `trailers_gate`): in the
+    TRAILERS state every `http.response.trailers` message whose headers validate hands exactly those fields to the
+    protocol, and the last one (`more_trailers = False`) is followed by the end of the response -/
+theorem trailers_emitted (s : S) (hs : List (HV × HV)) (vh : Headers) (more : Bool)
+    (hv : s.version = "2") (hst : s.st = .trailers) (hte : teTrailers s = true) (hval : validateHeaders hs = .ok vh) :
+    (appSend s (some (.trailers (some hs) more))).2.1 = (if more then [.trailers vh] else (sendClosed s [.trailers vh]).2.1) ∧
+    pendingTrailers (appSend s (some (.trailers (some hs) more))).2.1 = vh := by
+  have hin : inVersions s.version Consts.http_TRAILERS_VERSIONS = true := by
+    rw [hv]; decide
+  have hne : ¬ (s.st = .request) := by rw [hst]; decide
+  cases more with
+  | true => simp [appSend, hin, hst, hte, hval, pendingTrailers]
+  | false =>
+    have e : appSend s (some (.trailers (some hs) false)) = sendClosed s [.trailers vh] := by
+      simp [appSend, hin, hst, hte, hval]
+    rw [e]
+    refine ⟨by simp, ?_⟩
+    simp only [sendClosed]
+    split <;> simp [pendingTrailers]
+
 /-! ### what the libraries are handed -/
 open HC.Proto.Heads
 
